@@ -256,6 +256,17 @@ def work(p):
             st = SQLiteStore.make_store(db)
             st.add(traces)
             st.conn.close()
+            if rng.random() < 0.6:
+                # the traces come from runs on different days: the store returns them by day, so the rows of one function are not adjacent
+                import sqlite3
+
+                conn = sqlite3.connect(db)
+                ids = [r[0] for r in conn.execute("SELECT rowid FROM monkeytype_call_traces")]
+                with conn:
+                    for rid in ids:
+                        conn.execute("UPDATE monkeytype_call_traces SET created_at = ? WHERE rowid = ?", (f"2024-0{rng.randint(1, 9)}-1{rng.randint(0, 9)} 10:00:00.000", rid))
+                conn.close()
+                res.count("cli_stores_with_rows_from_several_days")
             if rng.random() < 0.5:
                 # the store also holds rows that no longer decode (a function and a class that are gone): they are skipped (C10) and
                 # must not change how the decodable rows are treated
@@ -317,6 +328,7 @@ def run(ck):
     ck.need("position_cells", 8000)
     ck.need("cli_stub_runs", 100, "CLI flag stratum did not run")
     ck.need("cli_stores_with_undecodable_rows", 30)
+    ck.need("cli_stores_with_rows_from_several_days", 30)
     ck.need("cells", 30, "cells of strategy x annotated? x traced? x parameter kind unseen")
     ck.need("return_kinds", 4)
     ck.need("optional_wraps_expected", 30)
